@@ -180,6 +180,9 @@ pub fn run(ctx: &Ctx) -> CheckOutput {
                     let sink = Sink::new();
                     let seqs = sequences_upto(&alphabet(&spec)[..3], if quick { 3 } else { 4 });
                     check_long::<f64>(&spec, &seqs, 2 * n + 8, &mut st, &sink);
+                    // values that are not exactly representable (running sums round)
+                    let dec: Vec<f64> = if needs_positive(&spec) { vec![0.1, 0.7, 3.3] } else { vec![0.1, 0.7, -0.3] };
+                    check_long::<f64>(&spec, &sequences_upto(&dec, 3), 2 * n + 8, &mut st, &sink);
                     JobOut { stats: st, viols: sink.take(), samples: vec![] }
                 }));
             }
